@@ -195,6 +195,7 @@ TARGETS = [
     ('atoms/__init__.py', 'Atom.for_isotope', True),
     ('atoms/__init__.py', 'ScatteringParams.for_isotope', True),
     ('atoms/__init__.py', '_load_scattering_params', False),
+    ('atoms/__init__.py', 'reference_wavelength', True),
 ]
 
 MODULE_NAMES = {'uuid', 'quadratures', 'sc', 'np', 'math', 'const', 'scipp', 'numpy', 'constants', 'itertools', 'dataclasses', 'copy', 'warnings', 'enum'}
@@ -339,6 +340,10 @@ class Translator:
                 mutable = isinstance(value, ast.Dict | ast.List | ast.Set | ast.ListComp | ast.DictComp | ast.SetComp) or (
                     isinstance(value, ast.Call) and isinstance(value.func, ast.Name)
                     and value.func.id in ('dict', 'list', 'set', 'defaultdict', 'OrderedDict', 'Counter', 'deque', 'bytearray'))
+                if not mutable and isinstance(value, ast.Call | ast.BinOp):
+                    # a scipp / numpy object built at import time (sc.scalar(...), np.array(...), const.h / const.m_n …)
+                    mutable = any(isinstance(n, ast.Attribute) and isinstance(n.value, ast.Name)
+                                  and n.value.id in ('sc', 'np', 'scipp', 'numpy', 'const') for n in ast.walk(value))
                 if mutable:
                     out |= {t.id for t in targets if isinstance(t, ast.Name) and t.id != '__all__'}
             self._mutables[file] = out
@@ -1290,7 +1295,8 @@ def render(repo):
             out.append(f'/-- `{qn}` ({", ".join(fi.params)}) -/')
             out.append(f'def {nm} : Kernel :=')
             out.append(f'  {{ name := [{", ".join(str(b) for b in qn.encode())}], nargs := {len(fi.params)}, nreal := {fi.nreal}, bits := {fi.bits},')
-            out.append(f'    allowed := [{", ".join(str(j) for j in fi.allowed)}], isPublic := {"true" if fi.public else "false"},')
+            out.append(f'    allowed := [{", ".join(str(j) for j in fi.allowed)}], isPublic := {"true" if fi.public else "false"}, '
+                       f'retContainer := {"true" if fi.ret_container else "false"},')
             ret = fi.rets[k]
             rets = [] if ret is None else [(ret, fi.ret_alias)]
             rets += [(fi.key_vars[key], fi.ret_keys[key]) for key in sorted(fi.key_vars)]
@@ -1322,6 +1328,8 @@ if __name__ == '__main__':
     repo = sys.argv[1] if len(sys.argv) > 1 else '/repo'
     done, failed = analyse(repo)
     for fi in done:
+        if fi.public and not fi.ret_container and any(j >= fi.nreal for j in (fi.ret_alias or [])):
+            print(f'RETURNS-MODULE-STATE {fi.file}:{fi.qual} may return {[fi.globals[j - fi.nreal] for j in fi.ret_alias if j >= fi.nreal]}')
         if fi.globals or fi.cached:
             print(f'GLOBAL-STATE {fi.file}:{fi.qual} uses {fi.globals} writes {sorted(fi.global_writes)} lru_cache={fi.cached}')
         print(f'OK   {fi.file}:{fi.qual} paths={len(fi.paths)} bits={fi.bits} allowed={fi.allowed} ret_alias={fi.ret_alias} public={fi.public} '
